@@ -15,7 +15,7 @@ import sys
 from fractions import Fraction
 
 sys.path.insert(0, os.path.dirname(os.path.abspath(__file__)))
-from vlib import env, tlc, pool
+from vlib import env, tlc, pool, repodata
 from vlib.report import Check
 from vlib.compare import close_prob, close_text3
 
@@ -202,7 +202,8 @@ def main():
         insts.append({"idx": i, "ps": st["ps"], "k": st["k"], "m": st["m"], "post": st["post"], "theta": st["theta"]})
     chunk = 150
     chunks = [insts[i: i + chunk] for i in range(0, len(insts), chunk)]
-    tasks = [{"op": "instances", "instances": c, "seed": ck.seed * 7919 + j} for j, c in enumerate(chunks)]
+    data_dir = repodata.copy_test_data(ck.wd, repodata.ASSEMBLE_FILES)
+    tasks = [{"op": "instances", "instances": c, "seed": ck.seed * 7919 + j, "data_dir": data_dir} for j, c in enumerate(chunks)]
     res = pool.map_tasks("impl.c13", tasks, mode="jit")
     grouped = {}
     feats = {}
@@ -248,7 +249,8 @@ def main():
 def trace_part(ck):
     tier = ck.tier
     nrun = 16 if tier == "quick" else 120
-    tasks = [{"op": "programs", "seed": ck.seed * 1000 + i, "index": i} for i in range(nrun)]
+    data_dir = os.path.join(ck.wd, "data")       # copied by the spec -> code part
+    tasks = [{"op": "programs", "seed": ck.seed * 1000 + i, "index": i, "data_dir": data_dir} for i in range(nrun)]
     res = pool.map_tasks("impl.c13", tasks, mode="jit")
     events = []
     for t, rr in zip(tasks, res):
